@@ -19,7 +19,7 @@ ASSUMPTIONS = [
     "if-feature: `lysp_feature_find` (prefix resolution + lookup by name) is an abstract function `lookup` in the theorems; the driver instantiates it with the module/import table of the request",
     "if-feature theorems are about YANG 1.1 modules (the YANG 1.0 `checkversion` path is covered by the correspondence only); feature names in the grammar AST are any blank/parenthesis-free words other than the literal keywords not/and/or",
     "range: `strtoll`/`strtoull` are modelled on the strings that can reach them (`[+-]?[0-9]*`), decimal64 through the normalised copy exactly as the C code builds it; the grammar theorem (range_parse_correct_partial) covers integer ranges and lengths, decimal64 is covered by the correspondence only",
-    "models are parametrised by which candidate repairs (fixes/F3, F13, F30, F51) the source contains; Generated/IffSrc.lean (tools/extractors/iff.py) reads that off the C text of $VERIF_REPO on every run and refuses unknown shapes; theorems are stated for every flag value, `_fails` for the pinned tree ({}), `_fixed` for the repaired one",
+    "models are parametrised by which candidate repairs (fixes/F3, F13, F30, F75) the source contains; Generated/IffSrc.lean (tools/extractors/iff.py) reads that off the C text of $VERIF_REPO on every run and refuses unknown shapes; theorems are stated for every flag value, `_fails` for the pinned tree ({}), `_fixed` for the repaired one",
     "the schema compiler proper (uses/augment/deviation expansion) is not modelled: construct-vs-expansion equivalence and load-order independence are checked metamorphically against an RFC reference expander (tools/checks/c11meta.py), not proved; instance acceptance of the two renderings is not compared (only the effective schema text)",
 ]
 TRUSTED = ["harness/wb_iff.c", "harness/api_compile.c", "reference grammar readers in tools/checks/c11.py (written from RFC 7950 §14)"]
@@ -44,9 +44,9 @@ def classify(component, what, case):
             except (OSError, IndexError):
                 line = ""
             if "tpdf_chain.objs[tpdf_chain.count - 1]" in line and "type.compiled->basetype" in line:
-                return "F54"
+                return "F78"
         if "SEGV" in what and "lys_compile_type" in err:
-            return "F54"
+            return "F78"
         return None
     if case.get("crash"):
         line = case.get("line") or ""
@@ -405,7 +405,7 @@ def run_iff(cx):
                     break
         elif ast is None and rep[0] == "ok" and all(ch in b" \t\n" or ch > 0x20 for ch in s) and b"\r" not in s:
             # ungrammatical (over RFC whitespace) but accepted
-            cx.fail("iff", "ungrammatical if-feature accepted", {"expr_hex": hexs(s), "env": env, "reply": rep, "finding_class": "F50"})
+            cx.fail("iff", "ungrammatical if-feature accepted", {"expr_hex": hexs(s), "env": env, "reply": rep, "finding_class": "F74"})
 
     # ---- end-to-end: node exists <=> value of the expression --------------------------------------------------------
     e2e = []
@@ -460,7 +460,7 @@ def run_iff(cx):
             cx.count(("e2e", env, bits, s), True, "iff:e2e:" + rep[0])
             if ast is None:
                 if rep[0] == "ok":
-                    cx.fail("iff", "ungrammatical if-feature accepted", {"expr_hex": hexs(s), "env": env, "reply": rep, "finding_class": "F50", "e2e": True})
+                    cx.fail("iff", "ungrammatical if-feature accepted", {"expr_hex": hexs(s), "env": env, "reply": rep, "finding_class": "F74", "e2e": True})
                 continue
             if not all(x in tab for x in iff_names(ast, [])):
                 continue
